@@ -536,6 +536,52 @@ theorem C06_repaired_product_nonneg_uncertainty :
       && (match product2U dw0 dw1 with | .ok _ => true | .error _ => false)) = true := by
   decide +kernel
 
+/-! ### C06 / C19: rounding residue of a joint belief mass (before / after repair b817f74) -/
+
+/-- binary64, decimal operands: the vacuous opinion over `a = [0.01, 0.99]` … -/
+def vw0 : Opinion Float 2 :=
+  ⟨#v[fb 0x0, fb 0x0], fb 0x3ff0000000000000, #v[fb 0x3f847ae147ae147b, fb 0x3fefae147ae147ae]⟩
+/-- … times `([0.02, 0.17], u = 0.81, a = [0.07, 0.93])` -/
+def vw1 : Opinion Float 2 :=
+  ⟨#v[fb 0x3f947ae147ae147b, fb 0x3fc5c28f5c28f5c3], fb 0x3fe9eb851eb851ec,
+    #v[fb 0x3fb1eb851eb851ec, fb 0x3fedc28f5c28f5c3]⟩
+
+/-- first binary64 entry of gen/corpus/prodclamp_hot.txt (a nearly vacuous opinion with zero belief on its dominant
+    base-rate element, times another one) -/
+def hw0 : Opinion Float 2 :=
+  ⟨#v[fb 0x3fab04509260eaf7, fb 0x0], fb 0x3fee4fbaf6d9f151, #v[fb 0x3fb17e7a81137184, fb 0x3fedd030afdd91d0]⟩
+def hw1 : Opinion Float 2 :=
+  ⟨#v[fb 0x3f65f32b5f1c1e80, fb 0x0], fb 0x3fefea0cd4a0e3e2, #v[fb 0x3fb74d94e967816a, fb 0x3fed164d62d30fd3]⟩
+
+/-- C06 / C19 (after repair abca806, before repair b817f74, binary64): all four operands are accepted by the checked
+    constructor.  The exact joint mass of cell `[1,1]` is `b0[1]*b1[1] = 0` in both products; the computed `p - a*u` is
+    `-1.5 ε = -3.33e-16` (`0xBCB8000000000000`), below the validators' `-ε`: the unlabelled product (`Opinion::new`) panics
+    with the label `b[]`, in either order of the decimal factors, and the labelled product (`Opinion::normalized`, nothing
+    validated) returns the negative mass -/
+theorem C06_pinned_product_negative_mass :
+    ((match Opinion.tryNew vw0.b vw0.u vw0.a, Opinion.tryNew vw1.b vw1.u vw1.a,
+            Opinion.tryNew hw0.b hw0.u hw0.a, Opinion.tryNew hw1.b hw1.u hw1.a with
+        | .ok _, .ok _, .ok _, .ok _ => true | _, _, _, _ => false)
+      && decide ((Pinned.product2NoClamp vw0 vw1).b[3] = fb 0xbcb8000000000000)
+      && decide ((Pinned.product2NoClamp vw0 vw1).b[3] < -SLV.F64.eps)
+      && isErr (Pinned.product2UNoClamp vw0 vw1) .b && isErr (Pinned.product2UNoClamp vw1 vw0) .b
+      && decide ((Pinned.product2LNoClamp vw0 vw1).b[3] = fb 0xbcb8000000000000)
+      && decide ((Pinned.product2NoClamp hw0 hw1).b[3] = fb 0xbcb8000000000000)
+      && isErr (Pinned.product2UNoClamp hw0 hw1) .b
+      && decide ((Pinned.product2LNoClamp hw0 hw1).b[3] = fb 0xbcb8000000000000)) = true := by
+  decide +kernel
+
+/-- C06 / C19 (repaired model, binary64): the same products have the mass `+0.0` in that cell, in both families, no
+    mass compares below zero, and the unlabelled products accept their results -/
+theorem C06_repaired_product_nonneg :
+    (decide ((product2Raw vw0 vw1).b[3].toBits = 0) && decide ((product2L vw0 vw1).b[3].toBits = 0)
+      && (product2Raw vw0 vw1).b.toList.all (fun x => !Scalar.lt x (Scalar.zero : Float))
+      && (match product2U vw0 vw1, product2U vw1 vw0 with | .ok _, .ok _ => true | _, _ => false)
+      && decide ((product2Raw hw0 hw1).b[3].toBits = 0) && decide ((product2L hw0 hw1).b[3].toBits = 0)
+      && (product2Raw hw0 hw1).b.toList.all (fun x => !Scalar.lt x (Scalar.zero : Float))
+      && (match product2U hw0 hw1 with | .ok _ => true | .error _ => false)) = true := by
+  decide +kernel
+
 /-! ### C07 / C02 / C03: the per-entry shortcut of `compute_base_rate` (before / after repairs c0b2ed5 + c8a7116) -/
 
 /-- binary32: `l = ([2^-19, 0.99992275], u = 2^-14·1.234375, a = [2^-19, 1 - 2^-19])`,
